@@ -3,6 +3,7 @@
 import json, subprocess
 
 ROUTER_NOTE = "Trusted: the reference broker model (spec.rs: acceptance-order log, per-subscription expected streams, MQTT matcher), the argument that single-threaded interleaving at buffer/channel granularity covers the threaded broker (DESIGN.md 1.1), release semantics (debug assertions off). The per-connection task is a link actor, not remote() itself (netsim runs the real one)."
+CLIENT_NOTE = "Trusted: the scripted broker and its model of which ack answers which publish (ambiguous histories - an id shared by two flows, acks sent before the publish they end up answering - are exempted and counted by probes, not judged), the in-memory transport (rumqttc::verif connector seam), tokio current-thread runtime with paused clock and seeded RNG. TLS/websocket/proxy transports and the synchronous Client wrapper are not exercised."
 CLAIMED = {
  # id: (engine, level, design_ref, text, note, technique)
  "C01": ("routersim", "exploration", "DESIGN.md 5.1, 6/C01",
@@ -49,6 +50,21 @@ CLAIMED = {
    "Seeded search over histories of appends interleaved with reads by independent cursor holders (fresh, stale, tag, continuation, fabricated cursors) on seeded segment geometries, each read checked against a reference vector; sampling, not proof.",
    "Trusted: the reference vector, and append()/_head_and_tail() as the observation of what is retained. Single-threaded (the log is owned by the router thread).",
    "deterministic simulation (seeded histories, reference model)"),
+ "C02": ("clientsim", "fault_enumeration", "DESIGN.md 5.3, 6/C02, 12.6",
+   "The real rumqttc client (AsyncClient, EventLoop::poll, MqttState, Network, codecs; MQTT 3.1.1 and 5) against a scripted broker on an in-memory transport and paused tokio time. For every seeded history of user requests and broker replies (in-order, out-of-order, duplicate, stray and failure-reason acks, wrap-around collisions, receive-maximum changes, repeated failures) the connection is cut after EVERY byte offset of both byte streams and the run re-executed. After every poll each accepted QoS>0 publish whose final ack the broker has not sent must be in state.clean() of a clone / state.collision / EventLoop.pending; on a session-present reconnect with a prompt in-order broker every held publish and release must be on the wire within 5 simulated seconds without user action.",
+   CLIENT_NOTE, "deterministic simulation on virtual time, crash points (cut offsets) enumerated per seeded history"),
+ "C07": ("clientsim", "exploration", "DESIGN.md 5.3, 6/C07, 12.6",
+   "Same harness. Wire-level and state-level invariants after every packet and poll: non-zero ids within the configured limit, no id shared by two simultaneously unacknowledged flows (incl. the PUBREL phase), inflight() and the broker-side count of unanswered publishes never above the (negotiated) limit and never below what the wire holds, no NEW user request on the wire while the window is certainly full or a collision is parked, a parked collision only while its id is held, and bounded liveness: once the broker has answered everything, requests still queued reach the wire within 1 simulated second. Inflight limits 1..65535, receive-maximum lowered and raised between connections. Sampling, not proof.",
+   CLIENT_NOTE, "deterministic simulation on virtual time + wire/state invariants + bounded liveness after faults stop"),
+ "C10": ("clientsim", "exploration", "DESIGN.md 5.3, 6/C10, 12.6",
+   "Same harness with a hostile broker script: every packet type and id (valid, unsolicited, repeated, above the limit), batches of 0-12 packets per read, v5 reason codes, topic aliases, server DISCONNECT, manual_acks on/off. Oracle per poll result and per wire packet: Incoming events equal the broker's packets exactly once in wire order; each surfaced QoS1/2 publish and known PUBREL has its PUBACK/PUBREC/PUBCOMP on the wire (none with manual acks, only what the user requested); unsolicited acks end in a state error before any later packet is surfaced; Outgoing notifications and written packets match one to one in kind and id; any panic of the client is a violation. Sampling, not proof.",
+   CLIENT_NOTE, "deterministic simulation on virtual time with a fault-injecting (protocol-violating) peer"),
+ "C11": ("clientsim", "fault_enumeration", "DESIGN.md 5.3, 6/C11, 12.6",
+   "Same harness and the same cut-offset enumeration as C02 (every byte offset of both streams of each seeded history, further seeded cuts during the replay). On the connection after a failure: with session present every carried-over publish is retransmitted with its original id and content before any request issued after the failure reaches the wire, and - MQTT 3.1.1, QoS 1, broker acknowledging in order - in the order of first transmission even across id wrap-around; with no session none of the carried-over requests is sent and a fresh request issued afterwards is on the wire within 1 simulated second.",
+   CLIENT_NOTE, "deterministic simulation on virtual time, crash points (cut offsets) enumerated per seeded history"),
+ "C18": ("clientsim", "exploration", "DESIGN.md 5.3, 6/C18, 12.6",
+   "Same harness, only virtual time matters: keep-alive K from 1 s to hours and 0, broker PINGRESP delays anywhere in [0, K), other traffic in either direction only, the broker going silent (answers nothing / half-open / stops reading so that writes stall) at a seeded instant, connects that never complete (no CONNACK, partial CONNACK, hanging transport connect). Oracle on the simulated clock: a PINGREQ at least once per K on an established connection, an error from poll() no later than 2K after the broker went silent (plus the flush timeout when writes stall), never a keep-alive error while every PINGREQ is answered within K, no PINGREQ ever with K=0 over 600 s, connect failures reported as timeouts at the configured connection timeout. Sampling, not proof.",
+   CLIENT_NOTE, "deterministic simulation on virtual (discrete-event) time with silent / stalled / half-open peer faults"),
 }
 
 NOT_APPLICABLE = {
